@@ -147,6 +147,14 @@ class FnBox(object):
         self._log("mean")
         return sum(args) * w / len(args)
 
+    def kws(self, *args, **kw):
+        """Sensitive to the ORDER of its keyword arguments (as any **kwargs callee may be)."""
+        self._log("kws")
+        acc = 0.0
+        for i, v in enumerate(kw.values()):
+            acc = acc * 0.5 + v * (i + 1)
+        return acc + sum(args)
+
     def tot(self, c):
         """Reads a whole container (dict or list) passed as one argument."""
         self._log("tot")
